@@ -1245,3 +1245,185 @@ Proof.
   rewrite Z in C. unfold check_cleanup.
   destruct (rank (status s) =? 6) eqn:E6; destruct (5 <=? rank (status s)) eqn:E5; unfold b2n in C; lia.
 Qed.
+
+(* ------------------------------------------------------------------ the waiter list is exactly the set of parked, unflagged waiters *)
+(* (model sanity: notify_waiters is defined as a map over all waiters and notify_one pops the
+   head of `queue`; this invariant shows the two views of tokio's waiter list coincide) *)
+Definition parked (s : st) (w : nat) : Prop :=
+  exists seen, nth_error (wpcs s) w = Some (WWait seen None).
+
+Record InvQ (s : st) : Prop := mkInvQ {
+  qIn : forall w, In w (queue s) <-> parked s w;
+  qND : NoDup (queue s)
+}.
+
+Lemma remove_nat_In w x l : In x (remove_nat w l) <-> In x l /\ x <> w.
+Proof.
+  induction l as [|h t IH]; simpl; [tauto|].
+  destruct (Nat.eqb h w) eqn:E.
+  - apply Nat.eqb_eq in E. subst h. rewrite IH. split; [tauto|]. intros [[->|H] Hn]; [congruence|tauto].
+  - apply Nat.eqb_neq in E. simpl. rewrite IH. split.
+    + intros [->|[H Hn]]; auto.
+    + intros [[->|H] Hn]; auto.
+Qed.
+
+Lemma remove_nat_NoDup w l : NoDup l -> NoDup (remove_nat w l).
+Proof.
+  induction 1 as [|h t Hn Hd IH]; simpl; [constructor|].
+  destruct (Nat.eqb h w); auto. constructor; auto.
+  intros X. apply remove_nat_In in X. tauto.
+Qed.
+
+Lemma parked_upd_other s s' w p v :
+  wpcs s' = upd (wpcs s) w p -> v <> w -> (parked s' v <-> parked s v).
+Proof. intros E Hn. unfold parked. rewrite E, nth_error_upd_neq by auto. tauto. Qed.
+
+Lemma parked_upd_self s s' w p q :
+  nth_error (wpcs s) w = Some q -> wpcs s' = upd (wpcs s) w p ->
+  (parked s' w <-> exists seen, p = WWait seen None).
+Proof.
+  intros Eq E. unfold parked. rewrite E, (nth_error_upd_eq _ _ _ _ Eq).
+  split; intros (seen & H); exists seen; congruence.
+Qed.
+
+(* a waiter's pc changes to a non-parked pc; it leaves the queue if it was parked *)
+Lemma InvQ_leave s s' w q p :
+  InvQ s -> nth_error (wpcs s) w = Some q -> wpcs s' = upd (wpcs s) w p ->
+  (forall seen, p <> WWait seen None) ->
+  queue s' = remove_nat w (queue s) -> InvQ s'.
+Proof.
+  intros [QI QN] Eq E Hp Eqq. constructor; rewrite Eqq.
+  - intros v. rewrite remove_nat_In. destruct (Nat.eq_dec v w) as [->|Hn].
+    + rewrite (parked_upd_self s s' w p q Eq E). split; [tauto|].
+      intros (seen & H). exfalso. eapply Hp; eauto.
+    + rewrite (parked_upd_other s s' w p v E Hn), QI. tauto.
+  - apply remove_nat_NoDup; auto.
+Qed.
+
+Lemma remove_nat_notin w l : ~ In w l -> remove_nat w l = l.
+Proof.
+  induction l as [|h t IH]; simpl; auto. intros H.
+  destruct (Nat.eqb h w) eqn:E.
+  - apply Nat.eqb_eq in E. subst. exfalso. apply H; auto.
+  - rewrite IH; auto.
+Qed.
+
+(* same, for a waiter that was not parked: the queue is unchanged *)
+Lemma InvQ_unparked s s' w q p :
+  InvQ s -> nth_error (wpcs s) w = Some q -> (forall seen, q <> WWait seen None) ->
+  wpcs s' = upd (wpcs s) w p -> (forall seen, p <> WWait seen None) ->
+  queue s' = queue s -> InvQ s'.
+Proof.
+  intros Q Eq Hq E Hp Eqq. eapply InvQ_leave; eauto.
+  rewrite Eqq. symmetry. apply remove_nat_notin. intros X.
+  apply (qIn _ Q) in X as (seen & H). rewrite Eq in H. injection H as ->. eapply Hq; eauto.
+Qed.
+
+Lemma InvQ_notify_one s : InvQ s -> InvQ (notify_one s).
+Proof.
+  intros [QI QN]. unfold notify_one. destruct (queue s) as [|w r] eqn:Eq.
+  - constructor; prj; rewrite ?Eq; auto.
+  - assert (Pw : parked s w) by (apply QI; left; auto).
+    destruct Pw as (seen & Ew). inversion QN as [|? ? Hn Hd]; subst.
+    constructor; prj; auto.
+    intros v. unfold flag_at. rewrite Ew. simpl.
+    destruct (Nat.eq_dec v w) as [->|Hne].
+    + unfold parked; prj. rewrite (nth_error_upd_eq _ _ _ _ Ew). split; [tauto|].
+      intros (x & H). discriminate.
+    + unfold parked; prj. rewrite nth_error_upd_neq by auto.
+      specialize (QI v). simpl in QI. unfold parked in QI. rewrite <- QI.
+      split; [auto|]. intros [->|H]; [congruence|auto].
+Qed.
+
+Lemma InvQ_frame s s' : InvQ s -> queue s' = queue s -> wpcs s' = wpcs s -> InvQ s'.
+Proof. intros [QI QN] Eq Ew. constructor; rewrite Eq; auto. intros w. unfold parked. rewrite Ew. apply QI. Qed.
+
+Lemma NoDup_snoc (l : list nat) w : NoDup l -> ~ In w l -> NoDup (l ++ [w]).
+Proof.
+  induction 1 as [|h t Hn Hd IH]; simpl; intros Hw.
+  - constructor; [intros []|constructor].
+  - constructor.
+    + rewrite in_app_iff. simpl. intros [X|[X|[]]]; [auto|]. apply Hw. left. auto.
+    + apply IH. intros X. apply Hw. right. auto.
+Qed.
+
+Ltac unparked :=
+  match goal with
+  | Q : InvQ ?s, Ew : nth_error (wpcs ?s) ?w = Some _ |- _ =>
+      eapply (InvQ_unparked s _ w); [exact Q | exact Ew | | reflexivity | | reflexivity];
+      try (intros ?; discriminate); auto
+  end.
+
+Lemma InvQ_step s l : InvQ s -> InvQ (step s l).
+Proof.
+  intros Q. destruct l as [i|w|w| |g]; simpl.
+  - (* actor thread *)
+    unfold astep. destruct (nth_error (athreads s) i) as [t|]; auto.
+    destruct (a_sub t).
+    + destruct (a_prog t) as [|[x|g| | | | | |] r]; auto; try (eapply InvQ_frame; eauto; reflexivity).
+      * destruct ((5 <=? rank x) && (rank (status s) <? 5));
+          [|destruct ((rank x =? 6) && (rank (status s) <? 6))]; eapply InvQ_frame; eauto; reflexivity.
+      * destruct (mem_gate g (gates s)); auto. eapply InvQ_frame; eauto; reflexivity.
+    + eapply InvQ_frame; eauto; reflexivity.
+    + eapply InvQ_frame; eauto; reflexivity.
+    + eapply InvQ_frame; eauto; reflexivity.
+    + (* notify_waiters *)
+      constructor; prj; [|constructor].
+      intros w. simpl. split; [tauto|]. intros (seen & H). prj. rewrite nth_error_map in H.
+      destruct (nth_error (wpcs s) w) as [[|?|?|?|? [?|]| | | |]|]; simpl in H; discriminate.
+    + (* notify_one *)
+      apply (InvQ_frame (notify_one s)); [apply InvQ_notify_one; auto|reflexivity|reflexivity].
+  - (* waiter *)
+    unfold wstep. destruct (nth_error (wpcs s) w) as [p|] eqn:Ew; auto.
+    assert (POLL : forall seen (l : bool), p = (if l then W2L seen else W2 seen) -> InvQ (poll_init s w seen l)).
+    { intros seen l Hp. unfold poll_init.
+      assert (Hq : forall x, p <> WWait x None) by (intros x; rewrite Hp; destruct l; discriminate).
+      destruct (negb (calls s =? seen)); [unparked|].
+      destruct (permit s); [unparked|].
+      destruct l; [|unparked].
+      (* registration *)
+      destruct Q as [QI QN].
+      assert (Nin : ~ In w (queue s)).
+      { intros X. apply QI in X as (x & H). rewrite Ew in H. injection H as ->. eapply Hq; eauto. }
+      constructor; prj.
+      - intros v. rewrite in_app_iff. simpl. destruct (Nat.eq_dec v w) as [->|Hne].
+        + unfold parked; prj. rewrite (nth_error_upd_eq _ _ _ _ Ew). split; eauto.
+        + unfold parked; prj. rewrite nth_error_upd_neq by auto. rewrite QI. unfold parked.
+          split; [intros [H|[H|[]]]; auto; congruence|auto].
+      - apply NoDup_snoc; auto. }
+    destruct p as [|seen|seen|seen|seen [n|]| | | |]; auto.
+    + unparked.
+    + destruct (stat_eqb (status s) Stopped);
+        (unparked).
+    + unparked.
+    + destruct (negb (calls s =? seen)); auto.
+      (match goal with
+       | Q : InvQ ?s, Ew : nth_error (wpcs ?s) ?w = Some _ |- _ =>
+           eapply (InvQ_leave s _ w); [exact Q | exact Ew | reflexivity | | reflexivity];
+           try (intros ?; discriminate)
+       end).
+    + destruct (thread0_done s); auto.
+      unparked.
+  - (* timeout *)
+    unfold tstep. destruct (nth_error (wpcs s) w) as [p|] eqn:Ew; auto.
+    destruct p as [|seen|seen|seen|seen fl| | | |]; auto.
+    assert (Q1 : InvQ (set_wpc (with_queue s (remove_nat w (queue s))) w WTimedOut)).
+    { (match goal with
+       | Q : InvQ ?s, Ew : nth_error (wpcs ?s) ?w = Some _ |- _ =>
+           eapply (InvQ_leave s _ w); [exact Q | exact Ew | reflexivity | | reflexivity];
+           try (intros ?; discriminate)
+       end). }
+    destruct fl as [[|]|]; auto. apply InvQ_notify_one; auto.
+  - unfold dstep. destruct (rank (status s) <? 5); auto. eapply InvQ_frame; eauto; reflexivity.
+  - eapply InvQ_frame; eauto; reflexivity.
+Qed.
+
+Lemma InvQ_run ls s : InvQ s -> InvQ (run ls s).
+Proof. revert s; induction ls as [|l r IH]; intros s Q; simpl; auto. apply IH, InvQ_step; auto. Qed.
+
+Lemma InvQ_init s0 ws progs : Forall (fun p => wpc_initial p = true) ws -> InvQ (mk_init s0 ws progs).
+Proof.
+  intros H. constructor; unfold mk_init; prj; [|constructor].
+  intros w. simpl. split; [tauto|]. intros (seen & E). prj.
+  apply nth_error_In in E. rewrite Forall_forall in H. specialize (H _ E). discriminate.
+Qed.
